@@ -293,12 +293,14 @@ class ExecutionContext:
                     else:
                         return None
                 case LinearIR.OpCode.CALL:
-                    args = [
+                    # Must not reuse ``args``, those are the arguments of the
+                    # function we're currently executing
+                    callArgs = [
                         localScope[arg.Reference]
                         for arg in instruction.Arguments
                     ]
                     localScope[instruction.Reference] = self._Invoke(
-                        instruction.Function, args
+                        instruction.Function, callArgs
                     )
                 case LinearIR.OpCode.NEW_VARIABLE:
                     varType = instruction.Type
